@@ -1497,6 +1497,13 @@ impl Zeroconf {
                     HostnameResolutionEvent::SearchStopped(hostname.to_owned()),
                 );
                 self.hostname_resolvers.remove(&hostname);
+
+                // A re-query that was due before the timeout may still be pending if we
+                // woke up late: the search is over, it must not run any more.
+                self.retransmissions.retain(|rerun| {
+                    !matches!(&rerun.command, Command::ResolveHostname(h, _, _, _)
+                        if h.to_lowercase() == hostname)
+                });
             }
 
             // process commands from the command channel
